@@ -1356,6 +1356,13 @@ class Engine(object):
       # All data columns are back to the values they had; reverting must not make their trigger
       # formulas run (formula columns do get recalculated, and arrive at the values they had).
       self._forget_data_column_recalcs()
+      # Formula columns affected by the reverted actions get their values back by recalculation.
+      # Do it now rather than at the next call: the results are not sent anywhere, since nothing
+      # outside of the sandbox has seen any of this bundle.
+      try:
+        self._bring_all_up_to_date()
+      except Exception:
+        log.error("Failed to recalculate after revert on failure: %s", traceback.format_exc())
 
       # Check schema consistency again. If this fails, something is really wrong (we tried to go
       # back to a good state but failed). We'll just report it loudly.
